@@ -69,6 +69,7 @@ def opaque_call(eng, st, name, args, site, call):
                 pass
     res = ("call", name, vs)
     havoc_mut_args(eng, st, name, args, call)
+    eng.note_blind(name, vs)
     return [(st, res)]
 
 
@@ -900,4 +901,6 @@ def p_sort_dedup(eng, st, name, args, site, depth, call):
 
 @prim_re(r"^<.* as std::iter::Iterator>::(any|all|find|position|count|fold)$")
 def p_iter_consume(eng, st, name, args, site, depth, call):
-    return one(st, ("call", name.split("::")[-1], vals(eng, st, args)))
+    vs = vals(eng, st, args)
+    eng.note_blind(name, vs)
+    return one(st, ("call", name.split("::")[-1], vs))
